@@ -59,26 +59,41 @@ def ulps(a, b):
 
 
 # ---------------------------------------------------------------- gamma callbacks (same family as ocaml/driver.ml)
+class _GammaTeamShare:
+    """a callable object (not a function) as gamma callback"""
+
+    def __call__(self, scale, n_teams, team_mu, team_var, members, place):
+        return len(members) / n_teams
+
+
+def _gm7(unused, c, k, mu, ss, team, rank):
+    return abs(mu) / (abs(mu) + c)
+
+
 def gamma_of_tag(tag, kind):
+    """the callbacks are handed their six arguments POSITIONALLY (that is the library's contract: a user's callback names its
+    parameters as it likes); they come as lambdas with arbitrary parameter names, *args functions, a callable object and a
+    functools.partial, so that a call by keyword, a signature inspection or a pickling of the callback shows"""
     if tag == "gd":
         return None  # the model file's own default
     if tag.startswith("gc:"):
         x = float.fromhex(tag[3:])
-        return lambda c, k, mu, ss, team, rank: x
+        return lambda *six: x
     if tag == "gk":
-        return lambda c, k, mu, ss, team, rank: 1 / k
+        return lambda a0, a1, a2, a3, a4, a5: 1 / a1
     if tag == "gr":
-        return lambda c, k, mu, ss, team, rank: 1 / (rank + 1)
+        return lambda *six: 1 / (six[5] + 1)
     if tag == "gt":
-        return lambda c, k, mu, ss, team, rank: len(team) / k
+        return _GammaTeamShare()
     if tag == "gm":
-        return lambda c, k, mu, ss, team, rank: abs(mu) / (abs(mu) + c)
+        import functools
+        return functools.partial(_gm7, None)
     if tag == "gp":
-        def gp(c, k, mu, ss, team, rank):
+        def gp(q1, q2, q3, q4, q5, q6):
             acc = 0.0
-            for r in team:
+            for r in q5:
                 acc = acc + r.sigma
-            return acc / (c * float(len(team)))
+            return acc / (q1 * float(len(q5)))
         return gp
     raise ValueError(tag)
 
